@@ -2,7 +2,8 @@
    Pinned statements; proofs in Crypto/CipherStreamProofs.v.  [E] is the block function:
    the theorems hold for every block function, in particular for AES-128 under the shared
    secret (Spec/Aes.v, instantiated below). *)
-From Passage Require Import Lib.Bytes Spec.Aes Spec.Cfb8Spec Crypto.CipherStream Crypto.CipherStreamProofs.
+From Passage Require Import Lib.Bytes Spec.Aes Spec.Cfb8Spec Crypto.CipherStream Crypto.CipherStreamProofs
+  Conn.Types Conn.Prog Conn.Sem1 Conn.Sem2 Conn.Monitor Conn.Reader Conn.Switch Conn.SwitchProofs.
 
 (* for EVERY schedule of poll_write calls (any buffers, Pending, partial acceptance, errors):
    the bytes on the wire are the CFB8 encryption, from the state the stream was in, of
@@ -50,6 +51,21 @@ Example C05_sp800_38a :
   = hx "3b79424c9c0dd436bace9e0ed4586a4f32b9".
 Proof. vm_compute. reflexivity. Qed.
 
+(* ---- where the switch sits in the connection (Conn/Switch.v: the three-phase monitor) ----
+   For every run of the handler - every oracle, configuration, environment and inbox at frame
+   level, every timed byte stream at byte level - encryption is switched on at most once; every
+   packet sent before it is a status or login packet other than Login Success (sent in clear);
+   the first packet after it is Login Success; everything after that is a configuration packet.
+   (The secret it is switched on with is the RSA-decrypted shared secret of this connection's
+   Encryption Response: C01.) *)
+Theorem C05_switch : forall o cfg e ib, switch_ok (untime (run1 o cfg e ib)) = true.
+Proof. exact run1_switch_ok. Qed.
+
+Theorem C05_switch_bytes : forall o cfg e (s : segs), switch_ok (untime (run2 o cfg e s)) = true.
+Proof. exact run2_switch_ok. Qed.
+
+Print Assumptions C05_switch.
+Print Assumptions C05_switch_bytes.
 Print Assumptions C05_write.
 Print Assumptions C05_read.
 Print Assumptions C05_passthrough.
